@@ -129,8 +129,8 @@ Proof.
   - intro msgv. destruct (negb compressed); [apply ps_pdf|].
     cbn [bind]. apply ps_get. intros s1 s2 H. dr H s1 s2. cbn [ds_defs ds_ts ds_lastoff ds_unkf ds_unkm ds_file ds_g ds_quirks].
     destruct (t0 =? 0); [apply ps_pdf|].
-    unfold with_time; cbn [ds_defs ds_ts ds_lastoff ds_unkf ds_unkm ds_file ds_g ds_quirks]. cbn [bind].
-    apply ps_put; [apply drel_mk; assumption|].
+    unfold with_time, with_quirk; cbn [ds_defs ds_ts ds_lastoff ds_unkf ds_unkm ds_file ds_g ds_quirks]. cbn [bind].
+    apply ps_put; [match goal with |- drel _ _ (if ?c then _ else _) _ => destruct c end; apply drel_mk; assumption|].
     destruct (get_field (dm_gmn dm) c_fieldNumTimeStamp) as [p|]; [|apply ps_pdf].
     destruct msgv as [m|]; [|ps]. destruct (field_type _ _) as [ty|]; [|ps].
     destruct (set_time ty _); [apply ps_pdf|ps].
